@@ -52,6 +52,8 @@ PROBES_PRE = ["HELLO", "AUTHENTICATE", "GOODBYE", "ERROR", "PUBLISHED", "SUBSCRI
               "EVENT", "RESULT", "REGISTERED", "UNREGISTERED", "INVOCATION", "INTERRUPT", "CALL",
               "PUBLISH"]
 PROBES_POST = ["HELLO", "WELCOME", "ABORT", "CHALLENGE", "AUTHENTICATE"]
+PROBES_OVER = ["GOODBYE", "ERROR", "PUBLISHED", "SUBSCRIBED", "EVENT", "RESULT", "REGISTERED", "INVOCATION",
+               "HELLO", "AUTHENTICATE"]
 PROBES_POST_CLIENT = ["CALL", "PUBLISH", "SUBSCRIBE", "REGISTER", "YIELD", "CANCEL", "UNSUBSCRIBE"]
 CB = ("onConnect", "onChallenge", "onWelcome", "onJoin", "onLeave", "onDisconnect")
 KINDS = ("call", "publish", "subscribe", "register", "unsubscribe", "unregister")
@@ -89,6 +91,7 @@ def main(ctx):
     need = ["ev:router:WELCOME", "ev:router:ABORT", "ev:router:CHALLENGE", "ev:router:GOODBYE",
             "ev:illegal", "ev:leave", "ev:disconnect", "ev:issue", "ev:lose", "probe_mode_execs",
             "probes", "illegal_before_welcome", "illegal_after_welcome", "illegal_while_requests_pending",
+            "illegal_after_session_end",
             "beh:onChallenge:return", "beh:onChallenge:raise", "beh:onWelcome:return",
             "beh:onWelcome:deny", "beh:onWelcome:raise", "beh:onJoin:return", "beh:onJoin:raise",
             "beh:onLeave:return", "beh:onLeave:raise", "beh:onLeave:raise_before",
@@ -334,6 +337,11 @@ class Exec:
             kinds = PROBES_PRE
         elif m.established():
             kinds = PROBES_POST + PROBES_POST_CLIENT
+        elif m.phase == "over" and self.l1.transport.open and not self.l1.closed and \
+                self.l1.session._session_id is None and not self.l1.session.pending_cb:
+            # the session has ended (GOODBYE exchange / ABORT) but the transport is still there: no
+            # session is established, so anything but WELCOME / ABORT / CHALLENGE is illegal again
+            kinds = PROBES_OVER
         else:
             return
         if "onWelcome" in self.l1.session.pending_cb or "onChallenge" in self.l1.session.pending_cb:
@@ -351,6 +359,8 @@ class Exec:
     def _count_illegal(self):
         if self.model.pre():
             self.stats["illegal_before_welcome"] += 1
+        elif self.model.phase == "over":
+            self.stats["illegal_after_session_end"] += 1
         else:
             self.stats["illegal_after_welcome"] += 1
             if self.pending_labels():
